@@ -60,8 +60,110 @@ impl Loader for NormLoader {
     }
 }
 
+/// Exact in-memory loader with several injected faults:
+/// `find` = indices of find_file calls that fail, `read` = indices (among the
+/// successful lookups) of files whose Read fails.
+#[derive(Clone, Debug)]
+struct FaultyLoader {
+    files: Arc<BTreeMap<String, Vec<u8>>>,
+    log: Arc<Mutex<Vec<String>>>,
+    found: Arc<Mutex<usize>>,
+    find: Vec<usize>,
+    read: Vec<usize>,
+}
+enum FaultyFile {
+    Data(std::io::Cursor<Vec<u8>>),
+    Broken,
+}
+impl std::io::Read for FaultyFile {
+    fn read(&mut self, buf: &mut [u8]) -> std::io::Result<usize> {
+        match self {
+            FaultyFile::Data(c) => c.read(buf),
+            FaultyFile::Broken => Err(std::io::Error::other("injected read failure")),
+        }
+    }
+}
+impl Loader for FaultyLoader {
+    type File = FaultyFile;
+    fn find_file(&self, url: &str) -> Result<Option<FaultyFile>, LoadError> {
+        let mut log = self.log.lock().unwrap();
+        let k = log.len();
+        log.push(url.to_string());
+        if self.find.contains(&k) {
+            return Err(LoadError::Input(
+                url.to_string(),
+                std::io::Error::other("injected lookup failure"),
+            ));
+        }
+        match self.files.get(url) {
+            Some(d) => {
+                let mut f = self.found.lock().unwrap();
+                let n = *f;
+                *f += 1;
+                if self.read.contains(&n) {
+                    Ok(Some(FaultyFile::Broken))
+                } else {
+                    Ok(Some(FaultyFile::Data(std::io::Cursor::new(d.clone()))))
+                }
+            }
+            None => Ok(None),
+        }
+    }
+}
+
 pub fn run(cmd: &str, a: &[Vec<u8>]) -> Option<Out> {
     match cmd {
+        // ffiles style prec entry faults (name content)*   faults: e.g. "find:3,read:0,find:9" or "none"
+        "ffiles" => {
+            let mut files = BTreeMap::new();
+            let mut i = 4;
+            while i + 1 < a.len() {
+                files.insert(s(&a[i]), a[i + 1].clone());
+                i += 2;
+            }
+            let mut find = vec![];
+            let mut read = vec![];
+            for part in s(&a[3]).split(',') {
+                if let Some(k) = part.strip_prefix("find:") {
+                    if let Ok(k) = k.parse() {
+                        find.push(k);
+                    }
+                } else if let Some(k) = part.strip_prefix("read:") {
+                    if let Ok(k) = k.parse() {
+                        read.push(k);
+                    }
+                }
+            }
+            let entry = s(&a[2]);
+            let data = files.get(&entry).cloned().unwrap_or_default();
+            let loader = FaultyLoader {
+                files: Arc::new(files),
+                log: Arc::new(Mutex::new(vec![])),
+                found: Arc::new(Mutex::new(0)),
+                find,
+                read,
+            };
+            let log = loader.log.clone();
+            let src = if entry.ends_with(".css") {
+                SourceFile::css_bytes(data, SourceName::root(&entry))
+            } else {
+                SourceFile::scss_bytes(data, SourceName::root(&entry))
+            };
+            let r = Context::for_loader(loader)
+                .with_format(format_of(&a[0], &a[1]))
+                .transform(src);
+            let logtxt = log.lock().unwrap().join("\n").into_bytes();
+            Some(match res(r) {
+                Out::Ok(mut v) => {
+                    v.push(logtxt);
+                    Out::Ok(v)
+                }
+                Out::Err(mut v) => {
+                    v.push(logtxt);
+                    Out::Err(v)
+                }
+            })
+        }
         "nfiles" => {
             let mut files = BTreeMap::new();
             let mut i = 4;
